@@ -894,19 +894,19 @@ SUBCHECKS = [
         doc="reshape: all chunkings of small shapes x all aligned merge/split targets (plus size-1 axes) x merge_chunks on/off"),
     Sub("ops-enum", check, kind="enum", cases=enum_ops, nontrivial=nontrivial, classes=classes, exhaustive=True,
         doc="fixed list of ~45 op/argument combinations over all chunkings of (4,), (5,), (3,3), (4,2); two-array ops over chunking pairs"),
-    Sub("reshape", check, strategy=lambda tier: reshape_case(), n={"quick": 1500, "thorough": 40000}, nontrivial=nontrivial, classes=classes,
+    Sub("reshape", check, strategy=lambda tier: reshape_case(), n={"quick": 1200, "thorough": 40000}, nontrivial=nontrivial, classes=classes,
         doc="random reshape targets incl. -1, size-1 axes, merge_chunks, limit, method/int spellings, ravel/flatten"),
     Sub("reshape-blockwise", check_reshape_blockwise, strategy=lambda tier: reshape_blockwise_case(), n={"quick": 500, "thorough": 10000},
         nontrivial=lambda c: A.irregular(c["arrays"][0]["chunks"]), classes=classes, doc="reshape_blockwise: C-order cases vs NumPy, documented round trip"),
-    Sub("axes", check, strategy=lambda tier: axes_case(), n={"quick": 1500, "thorough": 40000}, nontrivial=nontrivial, classes=classes,
+    Sub("axes", check, strategy=lambda tier: axes_case(), n={"quick": 1200, "thorough": 40000}, nontrivial=nontrivial, classes=classes,
         doc="transpose/moveaxis/swapaxes/squeeze/expand_dims/flip/rot90/broadcast_to"),
-    Sub("combine", check, strategy=lambda tier: combine_case(), n={"quick": 1500, "thorough": 40000}, nontrivial=nontrivial, classes=classes,
+    Sub("combine", check, strategy=lambda tier: combine_case(), n={"quick": 1200, "thorough": 40000}, nontrivial=nontrivial, classes=classes,
         doc="concatenate/stack/block/hstack/vstack/dstack of mixed NumPy/dask inputs"),
     Sub("select", check, strategy=lambda tier: select_case(), n={"quick": 1200, "thorough": 30000}, nontrivial=nontrivial, classes=classes,
         doc="take (list/ndarray/dask/int indices) and Array.shuffle index groups"),
-    Sub("grow", check, strategy=lambda tier: grow_case(), n={"quick": 1500, "thorough": 40000}, nontrivial=nontrivial, classes=classes,
+    Sub("grow", check, strategy=lambda tier: grow_case(), n={"quick": 1200, "thorough": 40000}, nontrivial=nontrivial, classes=classes,
         doc="repeat / tile / pad (9 modes shared with NumPy)"),
-    Sub("shift", check, strategy=lambda tier: shift_case(), n={"quick": 1500, "thorough": 40000}, nontrivial=nontrivial, classes=classes,
+    Sub("shift", check, strategy=lambda tier: shift_case(), n={"quick": 1200, "thorough": 40000}, nontrivial=nontrivial, classes=classes,
         doc="tril / triu / diff (prepend/append) / roll"),
     Sub("edit", check, strategy=lambda tier: edit_case(), n={"quick": 1000, "thorough": 30000}, nontrivial=nontrivial, classes=classes,
         doc="insert / delete / append"),
